@@ -616,6 +616,31 @@ Request GenRequest(World& w, const GenOpts& go)
         rq.dest_change = true;
     }
     const CAmount S = SpendableTotal(sim, cc.m_include_unsafe_inputs);
+    if (go.allow_tiny && rng.chance(1, 2)) {
+        // directed corner (only with --p tiny=1): send one native-segwit coin entirely (subtract-fee, no change) to a 4-byte witness-program script.
+        // The result is a 1-in-1-out transaction of 64 non-witness bytes, below the mempool's minimum standard size of 65.
+        std::vector<const SCoin*> sp;
+        for (const auto& [op, c] : L.Coins()) {
+            int wv;
+            std::vector<unsigned char> wp;
+            if (L.Classify(c) == CoinClass::TRUSTED && !sim.Locked().count(op) && !L.Ambiguous(c) && c.out.scriptPubKey.IsWitnessProgram(wv, wp) && c.out.nValue > 20000) sp.push_back(&c);
+        }
+        if (!sp.empty()) {
+            const SCoin* c = sp[rng.below(sp.size())];
+            Request t;
+            t.feerate_kvb = rng.range(1000, 20000);
+            t.cc.m_feerate = CFeeRate(t.feerate_kvb);
+            t.fee_mode = "normal";
+            t.amount_mode = "tiny_tx";
+            t.preset_mode = "spendable";
+            t.cc.Select(c->op);
+            t.cc.m_allow_other_inputs = false;
+            t.presets.push_back(c->op);
+            t.recips.push_back({WitnessUnknown(static_cast<int>(rng.range(2, 16)), rng.bytes(2)), c->out.nValue, true});
+            t.info.push_back({"witunknown", true, false});
+            return t;
+        }
+    }
     // --- preset inputs
     std::vector<const SCoin*> spendable, locked, immature, pending, spent;
     for (const auto& [op, c] : L.Coins()) {
@@ -676,6 +701,13 @@ Request GenRequest(World& w, const GenOpts& go)
     case 1: total_target = budget - (rng.chance(1, 3) ? 0 : rng.range(0, 2 * fee_guess + 3000)); break;
     case 2: total_target = budget + rng.range(1, 100000); break;
     case 3:
+        if (!dust_change_coin && rq.presets.empty() && !spendable.empty()) {
+            dust_change_coin = spendable[rng.below(spendable.size())];
+            rq.presets.push_back(dust_change_coin->op);
+            preset_value = dust_change_coin->out.nValue;
+            cc.Select(dust_change_coin->op);
+            rq.preset_mode = "spendable";
+        }
         if (dust_change_coin) {
             cc.m_allow_other_inputs = false;
             total_target = preset_value - fee_guess - rng.range(0, 1500);
@@ -687,7 +719,7 @@ Request GenRequest(World& w, const GenOpts& go)
     case 5: total_target = budget; force_sffo_all = true; break;
     }
     if (total_target < nrec) total_target = nrec;
-    const bool any_sffo = force_sffo_all || rng.chance(go.tame ? 15 : 30, 100);
+    const bool any_sffo = force_sffo_all || rng.chance(go.tame ? 15 : (amode == 3 ? 50 : 30), 100);
     CAmount left = total_target;
     for (int i = 0; i < nrec; ++i) {
         RecipInfo ri;
@@ -1006,7 +1038,7 @@ void RunBumpCase(uint64_t c, vh::Rng& rng, int ops)
     int64_t blocks = 0, funded = 0;
     const int64_t incr = sim.Pool().m_opts.incremental_relay_feerate.GetFeePerK();
     const int64_t min_relay = sim.Pool().m_opts.min_relay_feerate.GetFeePerK();
-    const std::vector<uint32_t> weights{24, 20, 8, 10, 8, 5, 8, 5, 5, 4, 3, 4, 2, 1, 9};
+    const std::vector<uint32_t> weights{22, 18, 8, 10, 8, 5, 8, 5, 5, 4, 3, 4, 2, 1, 14};
     const char* SCN[] = {"plain", "rate_ok", "rate_low", "outputs", "oci_change", "oci_recipient", "ancestor_confirmed", "r_confirmed", "r_already_bumped",
                          "r_wallet_descendant", "r_mempool_descendant", "r_not_mine", "r_conflicted", "r_unknown_txid", "small_change"};
     for (int i = 0; i < ops; ++i) {
@@ -1231,7 +1263,7 @@ void RunBumpCase(uint64_t c, vh::Rng& rng, int ops)
         std::optional<uint32_t> oci;
         std::string out_mode;
         const bool require_mine = true;
-        if (scn == 1 || (scn >= 3 && scn <= 6 && rng.chance(1, 3)) || (scn == 14 && rng.chance(1, 2))) {
+        if (scn == 1 || (scn >= 3 && scn <= 6 && rng.chance(1, 3)) || (scn == 14 && rng.chance(3, 4))) {
             req_rate = cr.fee * 1000 / orig_vsize + rng.range(1500, 40000);
         } else if (scn == 2) {
             req_rate = rng.chance(1, 2) ? std::max<int64_t>(0, cr.fee * 1000 / orig_vsize - rng.range(0, 500)) : cr.fee * 1000 / orig_vsize + rng.range(0, incr - 1);
